@@ -19,7 +19,7 @@ from basana.backtesting import exchange as ex, fees, lending, liquidity, errors
 
 DAY = datetime.timedelta(days=1)
 EPOCH = datetime.datetime(2020, 1, 1, tzinfo=datetime.timezone.utc)
-PAIRS = [bs.Pair("BTC", "USD"), bs.Pair("ETH", "USD")]
+PAIRS = [bs.Pair("BTC", "USD"), bs.Pair("ETH", "USD"), bs.Pair("ETH", "BTC")]  # the third one is a cross pair
 B, S = bs.OrderOperation.BUY, bs.OrderOperation.SELL
 SIDE = {"B": B, "S": S}
 
@@ -39,11 +39,21 @@ SHAPES = [
     ("90", "90", "90", "90", "11"),         # 11 fractional liquidity at a price whose products need rounding at qp=0
     ("33.37", "33.37", "33.37", "33.37", "11"),  # 12 awkward price
     ("300", "300", "300", "300", "16"),     # 13 gap up on a thin bar: 4 units of liquidity at 25%, orders short of funds
+    ("300", "300", "300", "300", "0"),      # 14 price spike without volume: open orders stay as they are
+    ("30", "30", "30", "30", "0"),          # 15 price collapse without volume
 ]
 
 
+STEP = DAY  # length of one history step; World() sets it from cfg["step_us"] (sub-second steps exercise time resolution)
+
+
+def set_step(cfg):
+    global STEP
+    STEP = datetime.timedelta(microseconds=cfg["step_us"]) if cfg.get("step_us") else DAY
+
+
 def T(k):
-    return EPOCH + k * DAY
+    return EPOCH + k * STEP
 
 
 class _DeterministicIds:
@@ -91,6 +101,7 @@ async def _noop(ev):
 
 def make_exchange(cfg, dispatcher):
     kw = {}
+    set_step(cfg)
     lend = cfg.get("lend")
     if lend:
         period = lend.get("period", 10)
@@ -98,15 +109,16 @@ def make_exchange(cfg, dispatcher):
         def cond(isym):
             return lending.MarginLoanConditions(
                 interest_symbol=isym, interest_percentage=D(str(lend.get("pct", 10))),
-                interest_period=period * DAY, min_interest=D(str(lend.get("minint", 0))),
+                interest_period=period * STEP, min_interest=D(str(lend.get("minint", 0))),
                 margin_requirement=D(str(lend["req"])))
         isym = lend.get("isym", "USD")
+        quote = lend.get("quote", "USD")  # the symbol the margin account is valued in
         if isym == "same":
-            ls = lending.MarginLoans("USD")
+            ls = lending.MarginLoans(quote)
             for s in ("USD", "BTC", "ETH"):
                 ls.set_conditions(s, cond(s))
         else:
-            ls = lending.MarginLoans("USD", default_conditions=cond(isym))
+            ls = lending.MarginLoans(quote, default_conditions=cond(isym))
         kw["lending_strategy"] = ls
     fee = cfg.get("fee")
     fee_strategy = fees.NoFee() if fee is None else fees.Percentage(D(str(fee[0])), D(str(fee[1])))
@@ -121,7 +133,7 @@ def make_exchange(cfg, dispatcher):
     bp, qp = cfg["bp"], cfg["qp"]
     for p in PAIRS[:cfg.get("pairs", 1)]:
         e.set_symbol_precision(p.base_symbol, bp)
-        e.set_pair_info(p, bs.PairInfo(bp, qp))
+        e.set_pair_info(p, bs.PairInfo(bp, qp if p.quote_symbol == "USD" else bp))
     e.set_symbol_precision("USD", qp)
     if lend and lend.get("isym") and lend["isym"] not in ("USD", "BTC", "ETH", "same"):
         raise ValueError("interest symbol must be priced")
@@ -253,6 +265,12 @@ class World:
             return False
         if a[0] in ("bar", "ord") and a[3 if a[0] == "ord" else 1] >= self.npairs:
             return False
+        if a[0] == "bar" and self.cfg.get("lend") and PAIRS[a[1]].quote_symbol != "USD":
+            # precondition (DESIGN.md 5b): a margin account only gets fills on a cross pair once both of its symbols can
+            # be valued in the margin account's currency (otherwise the margin level cannot be computed at all)
+            if not all(any(PAIRS[pi].base_symbol == sym and PAIRS[pi].quote_symbol == "USD" for pi in self.close)
+                       for sym in (PAIRS[a[1]].base_symbol, PAIRS[a[1]].quote_symbol)):
+                return False
         return True
 
     # ---- canonical key of the live state (DESIGN.md 2.3)
@@ -315,6 +333,10 @@ def alphabet(cfg, level="std"):
         return alphabet_liq(cfg)
     if level == "pairs2":
         return alphabet_pairs2(cfg)
+    if level == "cross":
+        return alphabet_cross(cfg)
+    if level == "ar":
+        return alphabet_ar(cfg)
     shapes = {"small": (0, 1, 5), "std": (0, 1, 2, 3, 5, 6, 9), "full": tuple(range(len(SHAPES)))}[level]
     A = [("bar", pi, si) for pi in range(npairs) for si in shapes]
     amts = {"small": (1, 3), "std": (1, 3), "full": (1, 2, 3)}[level]
@@ -395,4 +417,28 @@ def alphabet_pairs2(cfg):
         A.append(("ord", "lim", "S", pi, str(u), "100", None, False, False))
         A.append(("ord", "mkt", "B", pi, str(u), None, None, False, False))
     A.append(("cancel", 0))
+    return A
+
+
+def alphabet_cross(cfg):
+    """Three pairs, one of them a cross pair (ETH/BTC) whose quote symbol is priced by another pair that may not have
+    traded yet (distinct timestamps): orders on the cross pair whose minimum fee exceeds the proceeds need two loans."""
+    assert cfg.get("pairs", 1) == 3
+    u = unit(cfg)
+    A = [("bar", 1, 0), ("bar", 2, 0), ("bar", 0, 0), ("bar", 2, 5)]
+    for kind, lim in (("lim", "100"), ("mkt", None)):
+        for side in ("S", "B"):
+            for ab, ar in ((True, False), (False, False), (True, True)):
+                A.append(("ord", kind, side, 2, str(u), lim, None, ab, ar))
+    A += [("loan", "ETH", str(u)), ("loan", "BTC", str(u)), ("loan", "USD", "100"), ("cancel", 0), ("repay", 0)]
+    return A
+
+
+def alphabet_ar(cfg):
+    """Tiny alphabet for deep histories around auto-borrow / auto-repay orders that fill partially, price spikes that push
+    the margin level under 100%, several loans in one symbol, cancels and repayments."""
+    u = unit(cfg)
+    A = [("bar", 0, 0), ("bar", 0, 14), ("bar", 0, 15), ("loan", "USD", "100"),
+         ("ord", "lim", "S", 0, str(3 * u), "100", None, True, True), ("ord", "lim", "B", 0, str(3 * u), "100", None, True, True),
+         ("cancel", 0), ("repay", 0)]
     return A
